@@ -2284,6 +2284,8 @@ func (e *CoreExtension) functionParent(args ...interface{}) (interface{}, error)
 			ctx.currentBlock, ctx.currentLevel = previousBlock, previousLevel
 		}()
 
+		defer ctx.enterBlockDef(defs[level])()
+
 		for _, node := range defs[level].body {
 			if err := node.Render(&result, ctx); err != nil {
 				return nil, err
